@@ -1085,12 +1085,53 @@ func c04WedgeLayer() c04Layer {
 	return c04ListLayer("wedge", cs)
 }
 
+// c04TextIndexLayer: every built-in on a text whose length in characters (3) and in bytes (9) differ, with every
+// index / count from below zero to past the byte length, in second and in second+third position: a bound checked in
+// one unit and applied in the other is a slice out of range (or NUL padding) for the indices in between.
+func c04TextIndexLayer() c04Layer {
+	names := c04Union(c04InterpTable("builtinFuncs"), c04VMBuiltins())
+	type tx struct {
+		lit string
+		idx []string
+	}
+	short := []string{"-1", "0", "1", "2", "3", "4", "5", "8", "9", "10"}
+	// 40 characters, 120 bytes: longer than the 32-element buffer Go converts short strings into, so that a rune slice of
+	// it has no spare capacity to hide an index between the two lengths
+	long := []string{"0", "1", "39", "40", "41", "50", "120", "121"}
+	texts := []tx{{`"日本語"`, short}, {`"aé"`, short}, {`"` + strings.Repeat("語", 40) + `"`, long}}
+	var per []int
+	total := 0
+	for _, t := range texts {
+		n := len(t.idx) + len(t.idx)*len(t.idx)
+		per = append(per, n)
+		total += n
+	}
+	return c04Layer{Name: "text-index", N: len(names) * total, At: func(i int) c04Case {
+		name := names[i/total]
+		j := i % total
+		k := 0
+		for j >= per[k] {
+			j -= per[k]
+			k++
+		}
+		t := texts[k]
+		call := ""
+		if j < len(t.idx) {
+			call = name + "(" + t.lit + ", " + t.idx[j] + ")"
+		} else {
+			j -= len(t.idx)
+			call = name + "(" + t.lit + ", " + t.idx[j/len(t.idx)] + ", " + t.idx[j%len(t.idx)] + ")"
+		}
+		return c04Case{Body: []string{"> " + call}}
+	}}
+}
+
 func c04Layers(thorough bool) []c04Layer {
 	return []c04Layer{
 		// the expensive layers come first so that a time cap cuts the tail of the largest cheap layer instead
 		c04LoopLayer(thorough), c04WedgeLayer(), c04CyclicLayer(), c04DeepLayer(), c04AsyncLayer(),
 		c04OpsLayer(), c04AccessLayer(), c04PatternLayer(), c04FunctionLayer(), c04MiscLayer(),
-		c04StmtLayer(thorough), c04MethodLayer(thorough), c04ProviderLayer(thorough), c04RequestLayer(thorough), c04BuiltinLayer(thorough),
+		c04TextIndexLayer(), c04StmtLayer(thorough), c04MethodLayer(thorough), c04ProviderLayer(thorough), c04RequestLayer(thorough), c04BuiltinLayer(thorough),
 	}
 }
 
